@@ -100,7 +100,12 @@ class Module:
         params = list(self._parameters.values())
         for m in self.submodules():
             params += m.parameters()
-        return params
+        # a parameter (or submodule) shared between several attributes / parents is reported once
+        unique, seen = [], set()
+        for p in params:
+            if id(p) not in seen:
+                seen.add(id(p)); unique.append(p)
+        return unique
     
     def submodules(self) -> list['Module']:
         return [m for m in self._submodules.values()]
